@@ -155,9 +155,12 @@ def phaseStarts (cfg : Cfg) : Sys → List (List Nat) → List (Sys × List Nat)
     * B — `phase_recover_idempotent`, `phase_no_invention`, `idle_phase_keeps_baseline`: the
       `recover-idempotent` clauses and the state-level `no-invention` clause at every crash of every sequence of
       crashes, from any start system;
-    * C — `multi_crash_first_phase`, `multi_crash_first_of_runPhases`: the whole `judgePhase` for the first phase.
+    * C — `multi_crash_first_phase`, `multi_crash_first_of_runPhases`: the whole `judgePhase` for the first phase;
+    * D — `multi_crash_spec_partial` (`Props.lean`, proof in `PhasesLight*.lean`): this very statement under the
+      additional hypothesis `NoInstall` for the phases after the first crash (no flush-install and no
+      compaction-install segment executes there; the first phase is unrestricted).
     Not proved: `durable_survive` / `no_resurrection` (and `no_invention` in terms of the phase's operations and
-    the baseline) for the phases after the first crash — the run invariants `LInv` / `WInv` behind
+    the baseline) for phases after the first crash in which a flush or a compaction installs — the run invariants `LInv` / `WInv` behind
     `crash_facts_run` are established from a fresh tree (`linv_sysOf`, `winv_init`) only, not from a recovered
     state with a gap in the log, abandoned pending numbers and abandoned frames. -/
 def multi_crash_spec_full : Prop :=
